@@ -5,6 +5,8 @@
 #   - demo passes on the clean tree / fails on the seeded tree
 #   - the existing suite still passes on the seeded tree (skip with SKIP_SUITE=1)
 #   - the given checks are run against the seeded tree
+# one seeded run at a time (the runs share lean/PymtlVerif/Gen/*.lean and evidence/*.json)
+if [ -z "$PVSEED_LOCKED" ]; then PVSEED_LOCKED=1 exec flock /root/scratch/try_seed.lock "$0" "$@"; fi
 dir=$(realpath $1); tier=$2; shift 2
 wt=/tmp/pvseed_$$
 git -C /repo worktree add --detach $wt HEAD -q || exit 2
